@@ -560,3 +560,260 @@ func checkSynthFlagNonEmpty(c *Ctx, rule string, requestSide bool) {
 		}
 	}
 }
+
+// checkUnenvelopedCompression (defect D70).  A peer with envelopes may leave any single message
+// uncompressed (flag 0) under a declared compression; a peer without envelopes cannot be told -
+// its Content-Encoding covers the whole body.  Two structural necessary conditions besides the
+// pipeline's decision table (C01.4 compress-when-peer-cannot-be-told):
+//   - flag-built-from-destination: the message's compress-always flag is built, where the
+//     message is constructed, from 'the destination has no enveloper' and 'the destination
+//     declares a compression' (both nil tests occur among the conditions the stored value
+//     depends on); a constant, or a flag built from the SOURCE side, is a violation;
+//   - reframe-only-excluded: the adapter that merely rewrites envelopes (it never sees a message
+//     as a unit, so it cannot compress one) is selected only under a condition that depends on
+//     that flag or on the destination's enveloper.
+func checkUnenvelopedCompression(c *Ctx, rule string, requestSide bool) {
+	p := c.P
+	alwaysF := p.Field("message", "compressAlways")
+	var site *ssa.Function
+	destEnv, srcEnv, adapter := "clientEnveloper", "serverEnveloper", "envelopingWriter"
+	comprName := "respCompression"
+	if requestSide {
+		site = p.MustFunc("(*operation).handle")
+		destEnv, srcEnv, adapter = "serverEnveloper", "clientEnveloper", "envelopingReader"
+		comprName = "reqCompression"
+	}
+	_ = srcEnv
+	adapterT := p.MustNamed(adapter)
+	if alwaysF == nil {
+		c.Bad(rule, "message", "unenveloped-peer-gets-compressed-messages", token.NoPos,
+			"the message pipeline has no notion of 'the outgoing leg cannot mark a message as uncompressed': a message that an enveloped peer sent with its compressed flag unset reaches a peer without envelopes (Connect unary, REST) uncompressed under a Content-Encoding that declares a compression")
+		return
+	}
+	destEnvF := p.MustField("operation", destEnv)
+	// conditions a boolean value depends on: through phis (with the branch conditions that select
+	// their edges), negations and boolean operators
+	var deps func(v ssa.Value, seen map[ssa.Value]bool, out *[]ssa.Value)
+	deps = func(v ssa.Value, seen map[ssa.Value]bool, out *[]ssa.Value) {
+		if v == nil || seen[v] || len(seen) > 200 {
+			return
+		}
+		seen[v] = true
+		*out = append(*out, v)
+		switch x := v.(type) {
+		case *ssa.Phi:
+			for i, e := range x.Edges {
+				deps(e, seen, out)
+				pred := x.Block().Preds[i]
+				if iff, ok := pred.Instrs[len(pred.Instrs)-1].(*ssa.If); ok {
+					deps(iff.Cond, seen, out)
+				}
+				// the edge may come through an empty forwarding block
+				for _, pp := range pred.Preds {
+					if len(pred.Instrs) == 1 {
+						if iff, ok := pp.Instrs[len(pp.Instrs)-1].(*ssa.If); ok {
+							deps(iff.Cond, seen, out)
+						}
+					}
+				}
+			}
+		case *ssa.UnOp:
+			if x.Op == token.NOT {
+				deps(x.X, seen, out)
+			}
+		case *ssa.BinOp:
+			if bt, ok := x.Type().Underlying().(*types.Basic); ok && bt.Info()&types.IsBoolean != 0 && (x.Op == token.AND || x.Op == token.OR || x.Op == token.EQL || x.Op == token.NEQ) {
+				if _, isBoolX := x.X.Type().Underlying().(*types.Basic); isBoolX {
+					deps(x.X, seen, out)
+					deps(x.Y, seen, out)
+				}
+			}
+		}
+	}
+	nilTestOf := func(v ssa.Value, match func(f *types.Var) bool) bool {
+		bo, ok := v.(*ssa.BinOp)
+		if !ok || (bo.Op != token.EQL && bo.Op != token.NEQ) {
+			return false
+		}
+		x, y := bo.X, bo.Y
+		if IsNilConst(x) {
+			x, y = y, x
+		}
+		if !IsNilConst(y) {
+			return false
+		}
+		f := LoadedField(x)
+		return f != nil && match(f)
+	}
+	nBuilt, nSel := 0, 0
+	for _, fn := range p.Funcs {
+		if !p.inScope(fn) || (site != nil && fn != site) {
+			continue
+		}
+		// does this function construct the adapter of this direction?
+		var adapterAllocs []*ssa.Alloc
+		ForEachInstr(fn, func(in ssa.Instruction) {
+			al, ok := in.(*ssa.Alloc)
+			if !ok {
+				return
+			}
+			if pt, isP := al.Type().(*types.Pointer); isP && types.Identical(pt.Elem(), adapterT) {
+				adapterAllocs = append(adapterAllocs, al)
+			}
+		})
+		if len(adapterAllocs) == 0 {
+			continue
+		}
+		var flagStores []*ssa.Store
+		for _, st := range StoresToField(fn, alwaysF) {
+			flagStores = append(flagStores, st)
+		}
+		for _, st := range flagStores {
+			nBuilt++
+			var ds []ssa.Value
+			deps(st.Val, map[ssa.Value]bool{}, &ds)
+			envOK, comprOK := false, false
+			for _, d := range ds {
+				if nilTestOf(d, func(f *types.Var) bool { return f == destEnvF }) {
+					envOK = true
+				}
+				if nilTestOf(d, func(f *types.Var) bool { return N(f) == comprName }) {
+					comprOK = true
+				}
+			}
+			c.Check(envOK && comprOK, rule, FuncName(fn), "flag-built-from-destination", st.Pos(),
+				"the compress-always flag is built from 'the destination has no enveloper' and 'the destination declares a compression'",
+				"the message's compress-always flag is not built from the destination's framing ("+destEnv+" == nil) and the destination's declared compression ("+comprName+" != nil): messages that arrive uncompressed are sent to a peer without envelopes as they are, under a Content-Encoding that says compressed (or every message is compressed for peers that were promised nothing)")
+		}
+		for _, al := range adapterAllocs {
+			nSel++
+			ok := false
+			// the conditions the selection hangs on: the facts that dominate the construction, and
+			// the tests of its nearest dominators (a disjunction `!(flag && x)` reaches the block over
+			// two edges, neither of which dominates it)
+			var conds []ssa.Value
+			for _, f := range FactsAt(al.Block()) {
+				conds = append(conds, f.Cond)
+			}
+			for d, k := al.Block().Idom(), 0; d != nil && k < 4; d, k = d.Idom(), k+1 {
+				if iff, isIf := d.Instrs[len(d.Instrs)-1].(*ssa.If); isIf {
+					conds = append(conds, iff.Cond)
+				}
+			}
+			for _, cond := range conds {
+				var ds []ssa.Value
+				deps(cond, map[ssa.Value]bool{}, &ds)
+				for _, d := range ds {
+					if LoadedField(d) == alwaysF || nilTestOf(d, func(fv *types.Var) bool { return fv == destEnvF }) {
+						ok = true
+					}
+					// the flag's value itself (the same expression that was stored into the field)
+					for _, st := range flagStores {
+						if d == st.Val {
+							ok = true
+						}
+					}
+				}
+			}
+			c.Check(ok, rule, FuncName(fn), "reframe-only-excluded", al.Pos(),
+				"the envelope-rewriting adapter is selected under a condition that takes the compress-always flag (or the destination's framing) into account",
+				"the adapter that only rewrites envelopes is selected without regard to whether the outgoing leg can mark a message as uncompressed: it never sees a message as a unit, so a flag-0 message of an enveloped peer reaches a peer without envelopes uncompressed under a Content-Encoding that declares a compression")
+		}
+	}
+	if nBuilt == 0 || nSel == 0 {
+		c.Bad(rule, "package", "unenveloped-peer-gets-compressed-messages", token.NoPos, "the construction of the message with its compress-always flag ("+itoa(nBuilt)+") or the selection of the "+adapter+" ("+itoa(nSel)+") was not found where the adapters are chosen: shape changed")
+	}
+}
+
+// checkLengthMeasuredAfterLastEdit (seed C03l): the length announced by a synthesised envelope is
+// a measurement of the buffer that is written after it.  Between the measurement that flows into
+// the envelope and the envelope's encoding the buffer is not edited again (Reset / Write*): an
+// envelope built before a fallback replaces the payload announces the discarded payload's size.
+// For every envelope site whose length derives from (*bytes.Buffer).Len: there is no edit of the
+// same buffer that is reachable from the measurement and reaches the encoding without passing
+// another measurement of that buffer.
+func checkLengthMeasuredAfterLastEdit(c *Ctx, rule string, requestSide bool) {
+	p := c.P
+	_, envT := envTypes(p)
+	st := envT.Underlying().(*types.Struct)
+	var lengthF *types.Var
+	for i := 0; i < st.NumFields(); i++ {
+		if N(st.Field(i)) == "length" {
+			lengthF = st.Field(i)
+		}
+	}
+	for _, s := range envelopeSites(p) {
+		if s.request != requestSide {
+			continue
+		}
+		u, ok := s.env.(*ssa.UnOp)
+		if !ok || u.Op != token.MUL {
+			continue
+		}
+		al, ok := u.X.(*ssa.Alloc)
+		if !ok || !localAggregate(al) {
+			continue
+		}
+		// the measurements that may flow into the length
+		var lens []*ssa.Call
+		var walk func(v ssa.Value, depth int)
+		seen := map[ssa.Value]bool{}
+		walk = func(v ssa.Value, depth int) {
+			if depth > 6 || seen[v] {
+				return
+			}
+			seen[v] = true
+			v = strip(v)
+			switch x := v.(type) {
+			case *ssa.Phi:
+				for _, e := range x.Edges {
+					walk(e, depth+1)
+				}
+			case *ssa.Convert:
+				walk(x.X, depth+1)
+			case *ssa.Call:
+				if IsCallTo(x, "(*bytes.Buffer).Len") {
+					lens = append(lens, x)
+				}
+			}
+		}
+		for _, lv := range FieldValuesAt(al, lengthF, s.call) {
+			walk(lv, 0)
+		}
+		if len(lens) == 0 {
+			continue
+		}
+		fn := s.fn
+		for _, lc := range lens {
+			buf := lc.Call.Args[0]
+			isLenOfBuf := func(in ssa.Instruction) bool {
+				cv, ok := in.(*ssa.Call)
+				return ok && cv != lc && IsCallTo(cv, "(*bytes.Buffer).Len") && sameBuffer(cv.Call.Args[0], buf)
+			}
+			isEdit := func(in ssa.Instruction) bool {
+				ci, ok := in.(ssa.CallInstruction)
+				if !ok || !IsCallTo(ci, "(*bytes.Buffer).Reset", "(*bytes.Buffer).Write", "(*bytes.Buffer).WriteString", "(*bytes.Buffer).WriteByte", "(*bytes.Buffer).WriteRune", "(*bytes.Buffer).ReadFrom", "(*bytes.Buffer).Truncate") {
+					return false
+				}
+				return sameBuffer(ci.Common().Args[0], buf)
+			}
+			bad := ""
+			ForEachInstr(fn, func(in ssa.Instruction) {
+				if !isEdit(in) || bad != "" {
+					return
+				}
+				reached, _ := PathQuery{Target: func(x ssa.Instruction) bool { return x == in }, Avoid: isLenOfBuf}.Search(fn, lc)
+				if !reached {
+					return
+				}
+				toEnc, _ := PathQuery{Target: func(x ssa.Instruction) bool { return x == ssa.Instruction(s.call) }, Avoid: isLenOfBuf}.Search(fn, in)
+				if toEnc {
+					bad = p.Pos(in.Pos())
+				}
+			})
+			c.Check(bad == "", rule, FuncName(fn), "length-measured-after-last-edit", lc.Pos(),
+				"the buffer is not edited between this measurement and the envelope that announces it",
+				"the buffer is edited ("+bad+") after the length that the envelope announces was measured, and no new measurement follows: the envelope announces the size of a payload that was replaced, so the frame (here: the stream's terminal frame) is malformed and the peer never sees a complete end")
+		}
+	}
+}
